@@ -102,12 +102,16 @@ func (pdb *PebbleKV) View(u func(it kvi.KVIterator) error) error {
 	return err
 }
 
+// pebbleTransaction collects the writes of an Update in an indexed batch: reads
+// inside the update see them, and they reach the store only if the update
+// succeeds.
 type pebbleTransaction struct {
-	db *pebble.DB
+	db    *pebble.DB
+	batch *pebble.Batch
 }
 
 func (ptx pebbleTransaction) HasKey(id []byte) bool {
-	_, c, err := ptx.db.Get(id)
+	_, c, err := ptx.batch.Get(id)
 	if err != nil {
 		return false
 	}
@@ -116,7 +120,7 @@ func (ptx pebbleTransaction) HasKey(id []byte) bool {
 }
 
 func (ptx pebbleTransaction) Get(id []byte) ([]byte, error) {
-	v, c, err := ptx.db.Get(id)
+	v, c, err := ptx.batch.Get(id)
 	if err != nil {
 		return nil, err
 	}
@@ -126,24 +130,24 @@ func (ptx pebbleTransaction) Get(id []byte) ([]byte, error) {
 }
 
 func (ptx pebbleTransaction) Set(id []byte, val []byte) error {
-	return ptx.db.Set(id, val, nil)
+	return ptx.batch.Set(id, val, nil)
 }
 
 // Delete removes key `id` from the kv store
 func (ptx pebbleTransaction) Delete(id []byte) error {
-	return ptx.db.Delete(id, nil)
+	return ptx.batch.Delete(id, nil)
 }
 
 func (ptx pebbleTransaction) View(u func(it kvi.KVIterator) error) error {
-	it := ptx.db.NewIter(&pebble.IterOptions{})
-	pit := &pebbleIterator{ptx.db, it, true, nil, nil}
+	it := ptx.batch.NewIter(&pebble.IterOptions{})
+	pit := &pebbleIterator{ptx.batch, it, true, nil, nil}
 	err := u(pit)
 	it.Close()
 	return err
 }
 
 type pebbleIterator struct {
-	db      *pebble.DB
+	db      pebble.Reader
 	iter    *pebble.Iterator
 	forward bool
 	key     []byte
@@ -219,11 +223,16 @@ func (pit *pebbleIterator) Valid() bool {
 	return pit.iter.Valid()
 }
 
-// Update runs an alteration transaction of the kvstore. Pebble doesn't
-// actually provide transactions, so this is just filling in as a wrapper function
+// Update runs an alteration transaction of the kvstore: the writes of the
+// callback are applied atomically when it succeeds and dropped when it fails.
 func (pdb *PebbleKV) Update(u func(tx kvi.KVTransaction) error) error {
-	ptx := pebbleTransaction{pdb.db}
-	return u(ptx)
+	batch := pdb.db.NewIndexedBatch()
+	defer batch.Close()
+	ptx := pebbleTransaction{pdb.db, batch}
+	if err := u(ptx); err != nil {
+		return err
+	}
+	return batch.Commit(nil)
 }
 
 type pebbleBulkWrite struct {
